@@ -491,7 +491,7 @@ def suite_gen_hierarchy(rng, tier, shard, nshards):
     """exhaustive small rank vectors (all pairs of lists of length <= 2 (quick) / 3 (thorough) on {0,1,2} through
     _count_inversions, all aligned pairs + both transitive values through _compare_frame_rankings), random longer ones
     (gaps between levels, estimate longer / shorter), random matrices through _gauc (every window kind, shape
-    mismatch), _round / _hierarchy_bounds / _lca on lattice time stamps and the hierarchy stream"""
+    mismatch), _round / _hierarchy_bounds / _lca / _meet on lattice time stamps and the hierarchy / label streams"""
     kmax = 2 if tier == "quick" else 3
     lists = [list(t) for k in range(kmax + 1) for t in itertools.product(range(3), repeat=k)]
     cases = []
@@ -537,6 +537,8 @@ def suite_gen_hierarchy(rng, tier, shard, nshards):
                    tag="gen _hierarchy_bounds levels=%d" % len(hier), info={"fn": "_hierarchy_bounds", "hier": hier})
     for c in suite_lca(rng, tier, shard, nshards):
         yield _retarget(c, "_lca")
+    for c in suite_meet(rng, tier, shard, nshards):      # incl. fewer label levels, shorter / longer label lists
+        yield _retarget(c, "_meet")
 
 
 SUITES["gen_hierarchy"] = suite_gen_hierarchy
